@@ -20,6 +20,7 @@ PROP = dict(
         "MM.C30.C30_partial",
         "MM.C30.C30_dopoll_refuted",
         "MM.C30.C30_dopoll_partial",
+        "MM.C30.C30_dopoll_wake_command_ends_wait",
     ],
     spec=True,
     chunk=6000,
@@ -28,7 +29,9 @@ PROP = dict(
          "(quick) / 12 (thorough) is forced on the implementation (Poll goroutines parked at the verif scheduling point after the first unlock "
          "and inside the OnPoll callback), plus random schedules of 8-37 steps with 1-3 Poll() invocations including disabled labels and "
          "refused calls; agent level: the real Agent.doPoll parked at the scheduling point between its state check and DisconnectAll(), every "
-         "schedule of {Sleep, Wake, doPoll-start, doPoll-release} of length 4 and random longer ones; observed per step: returned error, callbacks run, in-memory state, persisted state file; non-trivial = a step that ran "
+         "schedule of {Sleep, Wake, doPoll-start, doPoll-release} of length 4 and random longer ones incl. WAKE_COMMAND frames through the "
+         "dispatcher, with a short poll duration (doPoll times out at once) and a long one (doPoll sits in its wait until signalled); "
+         "concurrency stress rounds; observed per step: returned error, callbacks run, in-memory state, persisted state file; non-trivial = a step that ran "
          "(not `disabled`)",
     nontrivial=lambda op, out: not out.startswith(("disabled", "ok st=AWAKE file=NONE ev=-")) and not op.startswith("reset"),
     trusted_base=[
@@ -36,13 +39,16 @@ PROP = dict(
         "lock-shape facts (tools/lockshape.go -> MM/Gen/LockC30.lean: Sleep and Wake acquire stateMu once, Poll twice; every read and write of "
         "`state` and every persistState call in them happens with stateMu held) and by a concurrency stress op (callbacks must alternate)",
         "scheduling point sleep.Poll.after-first-unlock (fixes/hook-sleep-poll.patch, build tag verif) and gated callbacks force the schedule; "
-        "the wait between OnPoll's return and the second section has no effect on the manager and is not separately forced",
+        "the wait between OnPoll's return and the second section is forced too when the tree has the scheduling point "
+        "sleep.Poll.before-second-lock (fixes/hook-sleep-poll-wait.patch; probed at run time) - without it that step, which has no effect on the "
+        "manager, is merged with the second section",
         "callbacks are assumed to return nil; the poll timer is replaced by explicit Poll() calls (PollInterval 1 h)",
     ],
     assumptions=[
         "callback errors and persistState write errors are not modelled",
         "Stop()/LoadState() (process start/stop) are outside the LTS; crash consistency of the state file is C34's subject",
-        "agent level: only doPoll's final check-then-DisconnectAll is modelled (two steps); its reconnect / listener handling is not",
+        "agent level: doPoll is modelled as wait (ended by a WAKE_COMMAND's signalWake, not by a bare Wake()) / state check / DisconnectAll; "
+        "its listener and reconnect handling (sockets) is not modelled",
     ],
     manifest=dict(
         category="proof",
